@@ -147,6 +147,8 @@ pub fn run_op(e: &mut Engine, log: &Log, host: &mut HostState, op: &str) -> Got 
             for (slots, alloc_count, free) in st {
                 l.push(format!("slots<={}", if slots <= 1_500_000 { "bound" } else { "EXCEEDED" }));
                 l.push(format!("accounting:{}", if alloc_count == free { "exact".to_string() } else { format!("alloc_count={alloc_count} free={free}") }));
+                // storage still marked reachable (the workloads that ask keep almost nothing alive)
+                l.push(format!("live:{}", if slots - free <= 2000 { "small".to_string() } else { format!("{}", slots - free) }));
             }
             Ok(Some(format!("{:?}", st)))
         } else if op == "unroot_all" {
